@@ -1079,7 +1079,7 @@ func (r *Resolver) answer(ctx context.Context, req, resp *dns.Msg, parentDS []dn
 					continue
 				}
 				if len(candidateDSRR) == 0 {
-					if r.isZoneSecure(ctx, q.Name, origDSRR, zone) {
+					if r.unsignedIsBogus(ctx, q.Name, origDSRR, zone) {
 						lastErr = dnssec.ErrDSRecords
 						continue
 					}
@@ -1245,7 +1245,7 @@ func (r *Resolver) authority(ctx context.Context, req, resp *dns.Msg, parentDS [
 					continue
 				}
 				if len(candidateDSRR) == 0 {
-					if r.isZoneSecure(ctx, q.Name, origDSRR, zone) {
+					if r.unsignedIsBogus(ctx, q.Name, origDSRR, zone) {
 						lastErr = dnssec.ErrDSRecords
 						continue
 					}
@@ -2452,6 +2452,17 @@ func (r *Resolver) findDS(ctx context.Context, signer, qname string, parentDS []
 			}
 
 			parentDS = dnsutil.ExtractRRSet(dsResp.Answer, signer, dns.TypeDS)
+			if !cd && !dsResp.AuthenticatedData {
+				// The sub-query ran its own CD=0 validation and did not
+				// authenticate this answer: the DS RRset is unsigned data
+				// from below an insecure delegation (one server holding a
+				// signed ancestor, an unsigned zone and a signed island
+				// beneath it crosses no referral on the way). Such a DS
+				// vouches for nothing — RFC 4035 §5.2 takes a trust link
+				// only from an authenticated DS RRset — so report "no DS"
+				// and let the caller decide between insecure and bogus.
+				parentDS = nil
+			}
 		}
 	}
 
@@ -2522,6 +2533,19 @@ func (r *Resolver) isZoneSecure(ctx context.Context, qname string, parentDS []dn
 	}
 
 	return hasSupportedDS(parentDS)
+}
+
+// unsignedIsBogus decides what an empty DS set for a candidate signer means:
+// true when the zone serving qname is known to be signed and no insecure
+// delegation between it and qname is cryptographically proven (the response
+// must then validate or fail), false when qname may be served as insecure
+// data. It is the test answer() and authority() already apply to a response
+// that carries no RRSIG at all, shared with the per-signer retry loops so a
+// signed island below a proven insecure cut is served without AD instead of
+// being bogused out.
+func (r *Resolver) unsignedIsBogus(ctx context.Context, qname string, parentDS []dns.RR, zone string) bool {
+	return r.isZoneSecure(ctx, qname, parentDS, zone) &&
+		!r.provenInsecureDelegation(ctx, zone, qname, parentDS)
 }
 
 // provenInsecureDelegation reports whether qname falls under a
@@ -3983,7 +4007,7 @@ func (r *Resolver) validateDelegation(ctx context.Context, req, resp *dns.Msg, q
 			continue
 		}
 		if len(candidateDSRR) == 0 {
-			if r.isZoneSecure(ctx, q.Name, origDSRR, zone) {
+			if r.unsignedIsBogus(ctx, q.Name, origDSRR, zone) {
 				lastErr = dnssec.ErrDSRecords
 				continue
 			}
